@@ -376,6 +376,10 @@ func (g *gen) writeStatementIOManip(b *buffer, n *a.IOManip, depth uint32) error
 		b.printf("if (%s%s) {\n",
 			prefix, name)
 		if isWriter {
+			// The write index in the struct can be stale: iop_etc may have
+			// advanced earlier in this function (e.g. via copy_from_slice).
+			b.printf("%s%s->meta.wi = ((size_t)(%s%s%s - %s%s->data.ptr));\n",
+				prefix, name, iopPrefix, prefix, name, prefix, name)
 			b.printf("memcpy(&%s%d_%s%s, %s%s, sizeof(*%s%s));\n",
 				oPrefix, ioBindNum, prefix, name,
 				prefix, name,
